@@ -1,0 +1,40 @@
+//go:build verif
+
+// Contracts for govc (see /verif/DESIGN.md). Comment-only file: with the
+// build tag off it is not part of the build, with it on it adds no code.
+
+package lifecycle
+
+//@ pred lmOK(m) = m != nil && m.locker != nil && m.notify != nil && m.notify.L == m.locker && unlocked(addr(m.notify.mu)) && m.locker != addr(m.notify.mu)
+
+//@ func NewManager
+//@   for C16
+//@   ensures [C16.lifecycle.new] fresh(result) && lmOK(result) && unlocked(result.locker) && result.currentState == initialState
+
+//@ func (*Manager).UpdateState
+//@   for C16
+//@   requires lmOK(m) && unlocked(m.locker)
+//@   at (*Notify).Broadcast requires [C16.broadcast-under-L] locked(n.L)
+//@   ensures [C16.lifecycle.update] m.currentState == state && unlocked(m.locker) && lmOK(m)
+
+//@ func (*Manager).WaitForStateChange
+//@   for C16
+//@   requires lmOK(m) && ctx != nil && unlocked(m.locker)
+//@   ensures [C16.lifecycle.wait] (result ==> m.currentState != sourceState) && (!result ==> cancelled(ctx))
+//@   ensures [C16.lifecycle.wait.unlock] unlocked(m.locker) && lmOK(m)
+//@   loop 0 invariant locked(m.locker) && lmOK(m) && (!ok ==> cancelled(ctx))
+
+//@ func (*Manager).GetCurrentState
+//@   for C16
+//@   requires lmOK(m) && unlocked(m.locker)
+//@   ensures [C16.lifecycle.get] state == m.currentState && unlocked(m.locker)
+
+//@ extern (*sync.WaitGroup).Add(wg, n)
+//@   noeffect
+
+//@ func (*Manager).TaskWaitForStateChange
+//@   for C16
+//@   requires lmOK(m) && ctx != nil && unlocked(m.locker)
+//@   ensures [C16.lifecycle.taskwait] (ret1 ==> m.currentState != sourceState && ret0 != nil) && (!ret1 ==> cancelled(ctx) && ret0 == nil)
+//@   ensures [C16.lifecycle.taskwait.unlock] unlocked(m.locker) && lmOK(m)
+//@   loop 0 invariant locked(m.locker) && lmOK(m)
